@@ -1011,6 +1011,7 @@ def piter_multiplex(
     thread_pool: futures.ThreadPoolExecutor,
     buffer_size: int = 0,
     max_batch_size: int = 0,
+    upstream: IteratorQueue | None = None,
 ) -> Iterable[_ValueT]:
   """Call a chain of functions in sequence concurrently with multithreads.
 
@@ -1020,6 +1021,8 @@ def piter_multiplex(
     thread_pool: The thread pool to be used.
     buffer_size: The buffer size of the queue.
     max_batch_size: The max batch size when dequeuing.
+    upstream: The queue the input iterators read from, if any. It is stopped
+      together with the returned queue.
 
   Returns:
     An iterable that iterates through the chain of functions.
@@ -1034,6 +1037,8 @@ def piter_multiplex(
       name='piter_multiplex_q',
       max_enqueuer=len(input_iterators),
   )
+  # Linked before any enqueuer runs: one that fails at once already stops it.
+  result_queue._upstream = upstream  # pylint: disable=protected-access
   thread_pool = _get_thread_pool(thread_pool)
   for iterator in input_iterators:
     thread_pool.submit(result_queue.enqueue_from_iterator, iterator)
@@ -1068,10 +1073,11 @@ def piter_fn(
 
   if thread_pool is None:
     raise ValueError('thread_pool required, got None.')
+  upstream = input_iterable if isinstance(input_iterable, IteratorQueue) else None
   if input_iterable is not None:
     input_iterable = _ThreadSafeIterator(input_iterable)
   its = [_get_iterate_fn(iter_fn, input_iterable) for _ in range(parallism)]
-  return piter_multiplex(its, thread_pool, buffer_size)
+  return piter_multiplex(its, thread_pool, buffer_size, upstream=upstream)
 
 
 def piter(
@@ -1122,18 +1128,13 @@ def piter(
     assert input_iterable is not None
     return input_iterable
   thread_pool = _get_thread_pool(thread_pool)
-  result = piter_fn(
+  return piter_fn(
       iterator_fn,
       thread_pool=thread_pool,
       input_iterable=input_iterable,
       parallism=max_parallism,
       buffer_size=buffer_size,
   )
-  if isinstance(result, IteratorQueue) and isinstance(
-      input_iterable, IteratorQueue
-  ):
-    result._upstream = input_iterable  # pylint: disable=protected-access
-  return result
 
 
 def pmap(
